@@ -386,7 +386,12 @@ def e3(prog: Program, chk: Check) -> None:
     if len(solver_nodes) != 1:
         raise AnalysisError("E3: eigendecomposition in Bath.__init__ not found")
     sn = solver_nodes[0]
-    pos = {d.name: d.sel[0][1] for d in du.gen.get(sn.id, []) if d.sel and d.sel[0][0] == "idx"}
+    # which local holds which output of the solver: by definition (tuple unpacking, or
+    # indexing a temporary - DefUse gives both the same shape), not by the statement's syntax
+    solver_call = sn.ast.value
+    pos = {d.name: d.sel[0][1] for d in du.defs
+           if d.value is solver_call and d.sel and d.sel[0][0] == "idx"}
+    from_solver = {d.name: d.node for d in du.defs if d.value is solver_call and d.sel}
     for n in du.cfg.nodes:
         if not (n.kind == "stmt" and isinstance(n.ast, ast.Assign)):
             continue
@@ -396,7 +401,7 @@ def e3(prog: Program, chk: Check) -> None:
         if t == "self._unitary" and ctx_nondiag == [False]:
             v = n.ast.value
             ok = isinstance(v, ast.Name) and pos.get(v.id) == 1 and \
-                {d.node for d in du.reaching(n.id, v.id)} == {sn.id}
+                {d.node for d in du.reaching(n.id, v.id)} == {from_solver.get(v.id)}
             chk.add("E3", u, f"self._unitary = {norm(v)}", ok,
                     "eigenvector matrix of the solver, unmodified" if ok else
                     "the stored transform is not the (unmodified) eigenvector output", n.ast)
@@ -405,7 +410,7 @@ def e3(prog: Program, chk: Check) -> None:
             inner = v.args[0] if isinstance(v, ast.Call) and (dotted(v.func) or "").endswith("diag") \
                 and v.args else None
             ok = isinstance(inner, ast.Name) and pos.get(inner.id) == 0 and \
-                {d.node for d in du.reaching(n.id, inner.id)} == {sn.id}
+                {d.node for d in du.reaching(n.id, inner.id)} == {from_solver.get(inner.id)}
             chk.add("E3", u, f"self._coupling_operator = {norm(v)}", ok,
                     "diag of the solver's eigenvalues, unmodified" if ok else
                     "eigenvalues are reordered / modified independently of the eigenvectors", n.ast)
